@@ -14,7 +14,8 @@ class C12(vlib.Spec):
                 "C12_compose_base", "C12_compose_forwarding", "C12_compose_map", "C12_compose_filter",
                 "C12_compose_flat_map", "C12_compose_flatten",
                 "C12_stage_accumulate", "C12_stage_sort", "C12_stage_keyed", "C12_stage_persist",
-                "C12_stage_resolve", "C12_stage_fanout", "C12_stage_unzip", "C12_stage_for_each",
+                "C12_stage_resolve", "C12_stage_fanout", "C12_stage_unzip", "C12_stage_inspect", "C12_stage_demux",
+                "C12_stage_for_each",
                 "C12_accumulate", "C12_pipeline_map_flatmap_filter", "C12_pipeline_filter_fanout_fold"]
     crate, group, binary = "h_push", "light", "h_push"
     shrink_rounds = 20
